@@ -37,6 +37,8 @@ type c13bSess struct {
 	md    metadata.MD
 	txmd  metadata.MD
 	cur   *c13Tx
+	ro    *c13Tx // a read-only transaction open at the same time in the same session
+	romd  metadata.MD
 	left  int // statements left in the current transaction
 	todo  int // transactions left
 	dead  bool
@@ -94,6 +96,13 @@ func c13bBody(r *simcore.Run) {
 	_, err = cl.SQLExec(ctx, &schema.SQLExecRequest{Sql: "CREATE TABLE acc (id INTEGER, v INTEGER, PRIMARY KEY id)"})
 	cancel()
 	r.Must(err, "create table")
+	ctx, cancel = call(obs)
+	_, err = cl.SQLExec(ctx, &schema.SQLExecRequest{Sql: "CREATE TABLE log (id INTEGER AUTO_INCREMENT, s VARCHAR[32], PRIMARY KEY id)"})
+	cancel()
+	r.Must(err, "create table log")
+	marks := map[*c13Tx][]string{} // rows each transaction appended to log
+	lastPK := map[*c13Tx]int64{}   // generated key COMMIT reported for log
+	nMark := 0
 
 	scan := func(md metadata.MD) ([]string, error) {
 		ctx, cancel := call(md)
@@ -117,6 +126,65 @@ func c13bBody(r *simcore.Run) {
 		r.Logf("%s", c13Dump(s.cur))
 		s.cur, s.txmd, s.spSet = nil, nil, false
 	}
+	endRO := func(s *c13bSess) {
+		if s.ro != nil {
+			s.ro.Outcome = "rolledback"
+			r.Logf("%s", c13Dump(s.ro))
+			s.ro, s.romd = nil, nil
+		}
+	}
+	query := func(md metadata.MD) ([]string, error) {
+		ctx, cancel := call(md)
+		defer cancel()
+		stream, err := cl.TxSQLQuery(ctx, &schema.SQLQueryRequest{Sql: "SELECT id, v FROM acc"})
+		var rows []string
+		for err == nil {
+			var res *schema.SQLQueryResult
+			res, err = stream.Recv()
+			if err == nil {
+				rows = append(rows, c13bRows(res)...)
+			}
+		}
+		if err != io.EOF {
+			return nil, err
+		}
+		return rows, nil
+	}
+	// one step of the session's read-only transaction, which lives next to its
+	// read-write one and begins and ends independently of it
+	roStep := func(s *c13bSess) {
+		switch {
+		case s.ro == nil:
+			ctx, cancel := call(s.md)
+			resp, err := cl.NewTx(ctx, &schema.NewTxRequest{Mode: schema.TxMode_ReadOnly})
+			cancel()
+			if err != nil {
+				if !strings.Contains(err.Error(), "session not found") {
+					r.Violation("newtx", "", "%s: NewTx (read-only) failed: %v", s.name, err)
+				}
+				return
+			}
+			s.ro = &c13Tx{Session: s.name + "/ro"}
+			all = append(all, s.ro)
+			s.romd = metadata.Join(s.md, metadata.Pairs("transactionid", resp.TransactionID))
+		case r.Pct(60):
+			st := c13Stmt{Kind: "sel", SQL: "SELECT id, v FROM acc", Affected: -1}
+			rows, err := query(s.romd)
+			if err != nil {
+				r.Violation("stmt-error", "", "%s: query in the read-only transaction failed: %v", s.name, err)
+			}
+			st.Rows = rows
+			s.ro.Stmts = append(s.ro.Stmts, st)
+		default:
+			ctx, cancel := call(s.romd)
+			_, err := cl.Rollback(ctx, &emptypb.Empty{})
+			cancel()
+			if err != nil {
+				r.Violation("rollback", "", "%s: ROLLBACK of the read-only transaction failed: %v", s.name, err)
+			}
+			endRO(s)
+		}
+	}
 	for steps := 0; steps < 400; steps++ {
 		var live []*c13bSess
 		for _, s := range ss {
@@ -135,6 +203,10 @@ func c13bBody(r *simcore.Run) {
 			}
 		}
 		s := live[r.Intn(len(live))]
+		if r.Pct(20) {
+			roStep(s)
+			continue
+		}
 		if s.cur == nil {
 			// begin
 			ctx, cancel := call(s.md)
@@ -185,6 +257,12 @@ func c13bBody(r *simcore.Run) {
 				r.Violation("atomicity", "commit-after-session-end", "%s: COMMIT succeeded on a transaction whose session had been closed or had expired\n  program: %s", s.name, c13Dump(s.cur))
 			}
 			end(s, "rolledback")
+			if s.ro != nil {
+				if _, err := query(s.romd); err == nil {
+					r.Violation("atomicity", "query-after-session-end", "%s: a query succeeded in a read-only transaction whose session had been closed or had expired", s.name)
+				}
+				endRO(s)
+			}
 			s.dead = true
 			continue
 		}
@@ -211,14 +289,13 @@ func c13bBody(r *simcore.Run) {
 			}
 			if resp.Header != nil {
 				s.cur.TxID = resp.Header.Id
-				// the reported total of affected rows is what the serial execution applies
-				want := 0
-				for _, st := range s.cur.Stmts {
-					if st.Err == "" && (st.Kind == "ins" || st.Kind == "upd" || st.Kind == "del") {
-						want += st.Affected
-					}
+				// what COMMIT reports for the whole transaction: affected rows, generated keys
+				s.cur.HasTotal, s.cur.Total = true, int(resp.UpdatedRows)
+				if pk, ok := resp.LastInsertedPKs["log"]; ok {
+					lastPK[s.cur] = pk.GetN()
+				} else if len(marks[s.cur]) > 0 {
+					r.Violation("generated-keys", "", "%s: COMMIT reports no generated key for table log although the transaction inserted %d rows into it\n  program: %s", s.name, len(marks[s.cur]), c13Dump(s.cur))
 				}
-				_ = want
 				end(s, "committed")
 			} else {
 				end(s, "rolledback") // nothing was written
@@ -228,7 +305,17 @@ func c13bBody(r *simcore.Run) {
 		s.left--
 		id, v := r.Intn(5), r.Intn(100)
 		var st c13Stmt
-		switch w := r.Intn(10); {
+		switch w := r.Intn(11); {
+		case w == 10:
+			n := 1 + r.Intn(3)
+			var vals []string
+			for i := 0; i < n; i++ {
+				nMark++
+				m := fmt.Sprintf("m%d", nMark)
+				marks[s.cur] = append(marks[s.cur], m)
+				vals = append(vals, "('"+m+"')")
+			}
+			st = c13Stmt{Kind: "log", V: n, SQL: "INSERT INTO log (s) VALUES " + strings.Join(vals, ", ")}
 		case w < 3:
 			st = c13Stmt{Kind: "ins", ID: id, V: v, SQL: fmt.Sprintf("INSERT INTO acc (id, v) VALUES (%d, %d)", id, v)}
 		case w < 5:
@@ -240,18 +327,8 @@ func c13bBody(r *simcore.Run) {
 		}
 		st.Affected = -1 // TxSQLExec does not report it
 		if st.Kind == "sel" {
-			ctx, cancel := call(s.txmd)
-			stream, err := cl.TxSQLQuery(ctx, &schema.SQLQueryRequest{Sql: st.SQL})
-			var rows []string
-			for err == nil {
-				var res *schema.SQLQueryResult
-				res, err = stream.Recv()
-				if err == nil {
-					rows = append(rows, c13bRows(res)...)
-				}
-			}
-			cancel()
-			if err != io.EOF {
+			rows, err := query(s.txmd)
+			if err != nil {
 				st.Err = err.Error()
 				s.cur.Stmts = append(s.cur.Stmts, st)
 				if !isBenignTxErr(err) {
@@ -289,6 +366,12 @@ func c13bBody(r *simcore.Run) {
 			cancel()
 			end(s, "rolledback")
 		}
+		if s.ro != nil {
+			ctx, cancel := call(s.romd)
+			cl.Rollback(ctx, &emptypb.Empty{})
+			cancel()
+			endRO(s)
+		}
 	}
 	obs = open()
 	final, err := scan(obs)
@@ -301,8 +384,48 @@ func c13bBody(r *simcore.Run) {
 		frows = append(frows, kv)
 	}
 	c13Analyse(r, all, observed, frows)
-	r.Sig("c13b", len(all), nSess)
-	r.Sample(map[string]interface{}{"layer": "server session API", "sessions": nSess, "transactions": len(all)})
+	// the second table: rows of committed transactions are all there, under the
+	// generated keys COMMIT reported; nothing of the others
+	ctx, cancel = call(obs)
+	lres, err := cl.UnarySQLQuery(ctx, &schema.SQLQueryRequest{Sql: "SELECT id, s FROM log"})
+	cancel()
+	if err != nil {
+		r.Violation("scan-error", "", "final scan of log failed: %v", err)
+	}
+	idOf := map[string]int64{}
+	for _, row := range lres.Rows {
+		if len(row.Values) == 2 {
+			idOf[row.Values[1].GetS()] = row.Values[0].GetN()
+		}
+	}
+	for _, t := range all {
+		for i, m := range marks[t] {
+			id, there := idOf[m]
+			if t.Outcome != "committed" {
+				if there {
+					r.Violation("atomicity", "log", "row %q of a transaction that did not commit (%s) is in table log\n  program: %s", m, t.Outcome, c13Dump(t))
+				}
+				continue
+			}
+			if !there {
+				r.Violation("atomicity", "log", "row %q of committed transaction %d is missing from table log\n  program: %s", m, t.TxID, c13Dump(t))
+			}
+			if i == len(marks[t])-1 && lastPK[t] != id {
+				r.Violation("generated-keys", "", "COMMIT of transaction %d reported generated key %d for table log, its last inserted row %q has id %d\n  program: %s", t.TxID, lastPK[t], m, id, c13Dump(t))
+			}
+		}
+	}
+	nc, nro := 0, 0
+	for _, t := range all {
+		if t.Outcome == "committed" {
+			nc++
+		}
+		if strings.HasSuffix(t.Session, "/ro") {
+			nro++
+		}
+	}
+	r.Sig("c13b", len(all), nSess, nc, nro, nMark)
+	r.Sample(map[string]interface{}{"layer": "server session API", "sessions": nSess, "transactions": len(all), "committed": nc, "read_only": nro, "rows_with_generated_keys": nMark})
 }
 
 // c13bRows renders a query result as "id=v" strings (like c13Render).
